@@ -45,7 +45,9 @@ pub(crate) mod verif_keyring {
             }
             assert!(KDF_N < 3, "[LIMIT] harness bound: three distinct scrypt inputs");
             let k = KDF_N;
-            KDF_PW[k][..pl].copy_from_slice(&password[..pl]);
+            // (guarded per-byte copy: a symbolic-length memcpy into the table is mis-modelled by the back end)
+            let mut j = 0;
+            while j < 4 { if j < pl { KDF_PW[k][j] = password[j]; } j += 1; }
             KDF_PWLEN[k] = password.len();
             KDF_SALT[k].copy_from_slice(salt);
             let o: [u8; 32] = kani::any();
@@ -102,7 +104,9 @@ pub(crate) mod verif_keyring {
         let locked = Keyring::lock_private_key(&sk, &pwb[..pl], salt);
         unsafe {
             assert!(KDF_PARAMS_OK && KDF_N == 1, "[C15] the locking key is scrypt(password, salt, 32768, 8, 1) -> 32 bytes");
-            assert!(KDF_PWLEN[0] == pl && eq(&KDF_PW[0], &pwb, pl) && KDF_SALT[0] == salt, "[C15] scrypt gets the password and the salt");
+            assert!(KDF_PWLEN[0] == pl, "[C15] scrypt gets the password (length)");
+            assert!(eq(&KDF_PW[0], &pwb, pl), "[C15] scrypt gets the password (bytes)");
+            assert!(eq(&KDF_SALT[0], &salt, 32), "[C15] scrypt gets the salt");
             assert!(AE.0 == 1 && AE.1 == KDF_OUT[0] && AE.2 == [0u8; 12] && AE.4 == 32 && AE.3 == skb && AE.6 == 4 && AE.5 == [0x65, 0x67, 0x6b, 0x30],
                     "[C15] sealed = ChaCha20-Poly1305(key = scrypt output, nonce = 0^12, plaintext = the 32-byte private key, aad = 65 67 6B 30)");
             assert!(B64_N == 1 && B64_LEN[0] == 84, "[C15] the locked key is the base64 of 84 bytes");
@@ -284,18 +288,19 @@ pub(crate) mod verif_keyring {
     fn name_text(name: &[u8], n: usize) -> String {
         // the text serialize_key() writes for one key without a private key line
         let mut t = String::from("[Key]\nName = ");
-        t.push_str(core::str::from_utf8(&name[..n]).unwrap());
+        t.push_str(unsafe { core::str::from_utf8_unchecked(&name[..n]) });
         t.push_str("\nPublicKey = ");
         t.push_str(PK_A);
         t.push('\n');
         t
     }
     fn is_ws(b: u8) -> bool { b == b' ' || (b >= 9 && b <= 13) }
-    fn name_roundtrip(with_tab: bool) {
+    fn name_roundtrip(with_tab: bool, maxn: usize) {
         unsafe { ct_codecs::kani_model::ATT_LEN = 36; }
-        let name: [u8; 3] = kani::any();
-        let n: usize = kani::any();
-        kani::assume(n >= 1 && n <= 3);
+        let mut name: [u8; 3] = kani::any();
+        let n: usize = if with_tab { 3 } else { kani::any() };
+        kani::assume(n >= 1 && n <= maxn);
+        if with_tab { name[1] = b'\t'; kani::assume(name[0] == b'a' && name[2] == b'b'); }
         // names `key generate` accepts: one line of input, trimmed, non-empty (ASCII here)
         let mut has_tab = false;
         let mut j = 0;
@@ -319,54 +324,79 @@ pub(crate) mod verif_keyring {
             assert!(kr.keys.len() == 1, "[C17] one section gives one entry");
             assert!(kr.keys[0].name.as_bytes() == &name[..n], "[C17,C14] the name parses back to exactly the name that was written");
             assert!(kr.keys[0].public_key.as_str() == PK_A && kr.keys[0].private_key.is_none(), "[C17] the public key parses back to exactly what was written");
-            assert!(kr.get_key(core::str::from_utf8(&name[..n]).unwrap()).is_some(), "[C17,C12] the key is found under the name that was written");
+            assert!(kr.get_key(unsafe { core::str::from_utf8_unchecked(&name[..n]) }).is_some(), "[C17,C12] the key is found under the name that was written");
             core::mem::forget(kr);
         }
     }
     /// C17(2): names accepted by key generation (no TAB) round-trip through the parser.
     #[kani::proof]
     #[kani::unwind(70)]
-    pub fn c17_name_roundtrip() { name_roundtrip(false); }
-    /// Known finding F4: names containing a TAB do not (the parser deletes every TAB).
+    pub fn c17_name_roundtrip() { name_roundtrip(false, 2); }
+    /// Known finding F4: a name containing a TAB does not round-trip (the parser deletes every TAB). Fully concrete input.
     #[kani::proof]
     #[kani::unwind(70)]
-    pub fn c17_name_roundtrip_tab() { name_roundtrip(true); }
+    pub fn c17_name_roundtrip_tab() {
+        unsafe { ct_codecs::kani_model::ATT_LEN = 36; }
+        let name = *b"a\tb";
+        let text = name_text(&name, 3);
+        let kr = Keyring::new(&text);
+        assert!(kr.is_ok() && kr.as_ref().unwrap().keys.len() == 1 && kr.as_ref().unwrap().keys[0].name.as_bytes() == &name[..],
+                "[C17] KF-F4 a key name containing a TAB, as written by key generation, parses back to itself");
+        core::mem::forget(kr);
+    }
 
-    /// C17(1): structural acceptance on section shapes, compared with the documented rule: every [Key] section has a Name
-    /// and a PublicKey, fields appear once per section and only inside a section, names and public keys are unique,
-    /// entries = sections in order.
+    /// C17(1): structural acceptance, compared with the documented rule: every [Key] section has a Name and a PublicKey,
+    /// fields appear once per section and only inside a section, names and public keys are unique, entries = sections
+    /// in order. (a) two sections with SYMBOLIC one-byte names and symbolic choice of public keys: accepted iff names
+    /// differ and keys differ; (b) ten concrete section shapes, run one after the other.
     #[kani::proof]
     #[kani::unwind(70)]
     pub fn c17_sections() {
         unsafe { ct_codecs::kani_model::ATT_LEN = 36; }
-        let which: u8 = kani::any();
-        kani::assume(which < 12);
-        // (text, accepted?, expected entry count)
-        let (text, accept, count): (String, bool, usize) = match which {
-            0 => (format_two("a", PK_A, "b", PK_B), true, 2),
-            1 => (format_two("a", PK_A, "a", PK_B), false, 0),                 // duplicate name
-            2 => (format_two("a", PK_A, "b", PK_A), false, 0),                 // duplicate public key
-            3 => (String::from("[Key]\n[Key]\nName = a\nPublicKey = PAAAAAAAAAAAAAAAAAAAAAAAAAAAAAAAAAAAAAAAAAAAAAAA\n"), false, 0), // empty first section
-            4 => (String::from("[Key]\nName = a\nPublicKey = PAAAAAAAAAAAAAAAAAAAAAAAAAAAAAAAAAAAAAAAAAAAAAAA\n[Key]\n"), false, 0), // empty last section
-            5 => (String::from("Name = a\n[Key]\nPublicKey = PAAAAAAAAAAAAAAAAAAAAAAAAAAAAAAAAAAAAAAAAAAAAAAA\n"), false, 0),       // field outside a section
-            6 => (String::from("[Key]\nName = a\n"), false, 0),                                                                   // no public key
-            7 => (String::from("[Key]\nPublicKey = PAAAAAAAAAAAAAAAAAAAAAAAAAAAAAAAAAAAAAAAAAAAAAAA\n"), false, 0),                 // no name
-            8 => (String::from("[Key]\nName = a\nName = b\nPublicKey = PAAAAAAAAAAAAAAAAAAAAAAAAAAAAAAAAAAAAAAAAAAAAAAA\n"), false, 0), // field twice
-            9 => (String::from("# c\n\n[Key]\n# c\nName = a\n\nPublicKey = PAAAAAAAAAAAAAAAAAAAAAAAAAAAAAAAAAAAAAAAAAAAAAAA"), true, 1),  // comments, blanks, no final newline
-            10 => (String::from("[Key]\nName = a\njunk\nPublicKey = PAAAAAAAAAAAAAAAAAAAAAAAAAAAAAAAAAAAAAAAAAAAAAAA\n"), false, 0),   // junk line
-            _ => (String::from(""), false, 0),                                                                                      // empty file
-        };
+        // (a)
+        let (n1, n2): (u8, u8) = (kani::any(), kani::any());
+        kani::assume(n1 >= b'a' && n1 <= b'c' && n2 >= b'a' && n2 <= b'c');
+        let same_pk: bool = kani::any();
+        let b1 = [n1];
+        let b2 = [n2];
+        let text = format_two(unsafe { core::str::from_utf8_unchecked(&b1) }, PK_A, unsafe { core::str::from_utf8_unchecked(&b2) }, if same_pk { PK_A } else { PK_B });
         let kr = Keyring::new(&text);
-        assert!(kr.is_ok() == accept, "[C17] a keyring is accepted iff every [Key] section is complete, fields are unique per section and inside a section, and no name or public key occurs twice");
+        assert!(kr.is_ok() == (n1 != n2 && !same_pk), "[C17] a keyring is accepted iff no name and no public key occurs twice");
         if let Ok(k) = &kr {
-            assert!(k.keys.len() == count, "[C17] entries are exactly the sections of the file");
-            assert!(k.keys[0].name == "a", "[C17] ... in order");
-            if count == 2 { assert!(k.keys[1].name == "b" && k.keys[1].public_key.as_str() == PK_B, "[C17] ... in order"); }
+            assert!(k.keys.len() == 2 && k.keys[0].name.as_bytes() == &b1[..] && k.keys[1].name.as_bytes() == &b2[..] && k.keys[1].public_key.as_str() == PK_B,
+                    "[C17] entries are exactly the sections of the file, in order");
         }
-        kani::cover!(which == 0 && kr.is_ok());
-        kani::cover!(which == 3 && kr.is_err());
-        kani::cover!(which == 9 && kr.is_ok());
+        kani::cover!(kr.is_ok());
+        kani::cover!(kr.is_err() && n1 != n2);
         core::mem::forget(kr);
+    }
+
+    /// C17(1b): ten concrete section shapes, run one after the other (concrete inputs: the parser is executed, not solved).
+    #[kani::proof]
+    #[kani::unwind(70)]
+    pub fn c17_shapes() {
+        unsafe { ct_codecs::kani_model::ATT_LEN = 36; }
+        let shapes: [(&str, bool, usize); 10] = [
+            ("[Key]\n[Key]\nName = a\nPublicKey = PAAAAAAAAAAAAAAAAAAAAAAAAAAAAAAAAAAAAAAAAAAAAAAA\n", false, 0), // empty first section
+            ("[Key]\nName = a\nPublicKey = PAAAAAAAAAAAAAAAAAAAAAAAAAAAAAAAAAAAAAAAAAAAAAAA\n[Key]\n", false, 0), // empty last section
+            ("Name = a\n[Key]\nPublicKey = PAAAAAAAAAAAAAAAAAAAAAAAAAAAAAAAAAAAAAAAAAAAAAAA\n", false, 0),       // field outside a section
+            ("[Key]\nName = a\n", false, 0),                                                                   // no public key
+            ("[Key]\nPublicKey = PAAAAAAAAAAAAAAAAAAAAAAAAAAAAAAAAAAAAAAAAAAAAAAA\n", false, 0),                 // no name
+            ("[Key]\nName = a\nName = b\nPublicKey = PAAAAAAAAAAAAAAAAAAAAAAAAAAAAAAAAAAAAAAAAAAAAAAA\n", false, 0), // field twice
+            ("# c\n\n[Key]\n# c\nName = a\n\nPublicKey = PAAAAAAAAAAAAAAAAAAAAAAAAAAAAAAAAAAAAAAAAAAAAAAA", true, 1),  // comments, blanks, no final newline
+            ("[Key]\nName = a\njunk\nPublicKey = PAAAAAAAAAAAAAAAAAAAAAAAAAAAAAAAAAAAAAAAAAAAAAAA\n", false, 0),   // junk line
+            ("[Key]\nPrivateKey = x\nName = a\nPublicKey = PAAAAAAAAAAAAAAAAAAAAAAAAAAAAAAAAAAAAAAAAAAAAAAA\n", false, 0), // malformed private key
+            ("", false, 0),                                                                                      // empty file
+        ];
+        let mut i = 0;
+        while i < 10 {
+            let (t, accept, count) = shapes[i];
+            let kr = Keyring::new(t);
+            assert!(kr.is_ok() == accept, "[C17] a keyring is accepted iff every [Key] section is complete, fields are unique per section and inside a section");
+            if let Ok(k) = &kr { assert!(k.keys.len() == count && k.keys[0].name == "a", "[C17] entries are exactly the sections of the file"); }
+            core::mem::forget(kr);
+            i += 1;
+        }
     }
     fn format_two(n1: &str, p1: &str, n2: &str, p2: &str) -> String {
         let mut t = String::from("[Key]\nName = ");
